@@ -3253,14 +3253,18 @@ func lemmaForwardSession(raw *rawEnvelope) (e *Session, e3 *Session, accepted bo
 
 // The constructors and setConn establish the representation invariant (tcpInv) that
 // Send/Receive require: they belong to every property Send/Receive belong to.
+// readSource(r): where the bytes a reader delivers come from (io.TeeReader keeps it; a reader
+// that splices in other bytes - io.MultiReader over an old buffer - does not).
+//@ spec fn readSource(r io.Reader) io.Reader = uninterpreted
 //@ func (*tcpTransport).setConn :: (t, conn) ()
-//@   props C01 C04 C12 C16
+//@   props C01 C04 C09 C10 C12 C16
 //@   requires t != nil && conn != nil && t.ReadLimit >= 0
 //@   modifies t.conn, t.ctxConn, t.encoder, t.decoder, t.limitedReader, t.ReadLimit, t.limitedReader.consumed
 //@   ensures [C12,C16] @armed tcpInv(t) && t.limitedReader.N == t.ReadLimit  ## in particular the decoder reads through the very budget that Receive re-arms (C12: an intact stream is never cut by the transport itself)
 //@   ensures [C16] @defaultlimit old(t.ReadLimit) == 0 ==> t.ReadLimit == DefaultReadLimit
 //@   ensures [C16] @keptlimit old(t.ReadLimit) != 0 ==> t.ReadLimit == old(t.ReadLimit)
 //@   ensures t.conn == conn
+//@   ensures [C01,C04,C09,C10,C12,C16] @readsonlyconn t.ctxConn.conn == conn && readSource(t.limitedReader.R) == readSource(box(t.ctxConn))  ## every byte the decoder sees from now on was read from this connection (after a TLS upgrade: under TLS), none is carried over from the connection it replaces
 
 //@ func (*tcpTransport).Receive :: (t, ctx) (result0, result1)
 //@   props C01 C04 C09 C12 C16
